@@ -524,8 +524,8 @@ Error RACFGBuilder::on_invoke(InvokeNode* invoke_node, RAInstBuilder& ib) noexce
 // ===================================
 
 Error RACFGBuilder::move_imm_to_reg_arg(InvokeNode* invoke_node, const FuncValue& arg, const Imm& imm_, Out<Reg> out) noexcept {
+  // NOTE: Also used by `move_imm_to_stack_arg()`, so `arg` is either a register or a stack argument.
   Support::maybe_unused(invoke_node);
-  ASMJIT_ASSERT(arg.is_reg());
 
   Imm imm(imm_);
   TypeId type_id = TypeId::kVoid;
